@@ -1,7 +1,7 @@
 /-
   C15 model driver.  Input lines (same as harness/cmd/c15):
       case <api> <k> <v> <mode> <pre> <w> | <program>
-  Output: res=<ok|exc|intr:V> log=<events> st=<flag>/<jobs>/<call>/<try> after=<..> log2=<..> st2=<..>
+  Output: res=<ok|exc|intr:V> log=<events> st=<flag>/<jobs>/<call>/<try>/<asyncRunner> after=<..> log2=<..> st2=<..>
   `soak` lines are implementation-only (the model's statement about them is theorem `prompt`); answered "soak".
 -/
 import GojaModel.Base.Proto
@@ -62,6 +62,11 @@ def parseStmt : Nat → List String → Option (Stmt × List String)
     match parseBlock fuel rest with
     | some (b, rest') => some (Stmt.enqueue b, rest')
     | none => none
+  | fuel + 1, "H" :: rest =>
+    -- Promise.resolve({then(r){ BODY; r() }}): one job (newPromiseResolveThenableJob) whose body is the user's then()
+    match parseBlock fuel rest with
+    | some (b, rest') => some (Stmt.enqueue b, rest')
+    | none => none
   | fuel + 1, "A" :: rest =>
     -- (async function(){ PRE; await 1; POST })():  body up to the await runs in a generator frame (asyncRunner.start),
     -- the continuation is a promise job that re-enters through generator.next (generator frame again)
@@ -69,7 +74,7 @@ def parseStmt : Nat → List String → Option (Stmt × List String)
     | some (pre, r1) =>
       match parseBlock fuel r1 with
       | some (post, r2) =>
-        some (Stmt.native true false true 1 (pre ++ [Stmt.enqueue [Stmt.native true false true 1 post]]), r2)
+        some (Stmt.native true false true 1 (pre ++ [Stmt.enqueue [Stmt.asyncResume post]]), r2)
       | none => none
     | none => none
   | fuel + 1, "B" :: rest =>
@@ -83,9 +88,10 @@ def parseStmt : Nat → List String → Option (Stmt × List String)
         match parseBlock fuel r2 with
         | some (post2, r3) =>
           let gen (b : List Stmt) : Stmt := Stmt.native true false true 1 b
-          let jFail : List Stmt := [gen [Stmt.throw]]
-          let j2 : List Stmt := [gen post2]
-          let j1 : List Stmt := [gen [Stmt.tryc true false (post ++ [Stmt.enqueue j2]) [Stmt.enqueue jFail] []]]
+          -- continuations run through asyncRunner.onFulfilled / onRejected (vm.curAsyncRunner set, reset deferred)
+          let jFail : List Stmt := [Stmt.asyncResume [Stmt.throw]]
+          let j2 : List Stmt := [Stmt.asyncResume post2]
+          let j1 : List Stmt := [Stmt.asyncResume [Stmt.tryc true false (post ++ [Stmt.enqueue j2]) [Stmt.enqueue jFail] []]]
           let inner : Stmt := gen [Stmt.tryc true false (pre ++ [Stmt.enqueue j1]) [Stmt.enqueue jFail] []]
           some (gen [inner], r3)
         | none => none
@@ -117,7 +123,7 @@ def outStr : Outcome → String
   | .oof => "OOF"
 
 def stStr (st : St) : String :=
-  s!"{if st.flag then 1 else 0}/{st.queue.length}/{st.cs}/{st.ts.length}"
+  s!"{if st.flag then 1 else 0}/{st.queue.length}/{st.cs}/{st.ts.length}/{if st.car then 1 else 0}"
 
 def modelFuel : Nat := 1000000
 
@@ -131,15 +137,15 @@ def runCase (hdr : List String) (prog : List Stmt) : String :=
                  else if pre == "intrclear" then { st0 with flag := false, val := w }   -- Interrupt(w); ClearInterrupt()
                  else st0
       let fmt (res : String) (st1 : St) : String :=
-        let (o2, st2) := apiCall modelFuel ⟨0, 0⟩ [Stmt.log 999] { st1 with log := [] }
+        let (o2, st2) := apiCall modelFuel { k := 0, v := 0 } [Stmt.log 999] { st1 with log := [] }
         s!"res={res} log={logStr st1.log} st={stStr st1} after={outStr o2} log2={logStr st2.log} st2={stStr st2}"
       if api == "errstr" then
         -- RunString("throw {toString(){PROG}}"), then the host calls err.Error() while idle: valueString runs the
         -- toString under vm.try, swallows an uncatchable and (depth 0) calls leaveAbrupt; leave() is not called
-        let (o0, s0) := apiCall modelFuel ⟨k, v⟩ [Stmt.throw] st0
+        let (o0, s0) := apiCall modelFuel { k := k, v := v } [Stmt.throw] st0
         match o0 with
         | .thrown =>
-          let (o1, s1) := apiCallJ false modelFuel ⟨k, v⟩ prog s0
+          let (o1, s1) := apiCallJ false modelFuel { k := k, v := v } prog s0
           match o1 with
           | .normal => fmt "errstr:boom" s1
           | .oof => fmt "OOF" s1
@@ -147,7 +153,7 @@ def runCase (hdr : List String) (prog : List Stmt) : String :=
         | o => fmt (outStr o) s0
       else
         -- api `try` = Runtime.Try: same frames, but leave() is not called (queued jobs wait for the next call)
-        let (o1, st1) := apiCallJ (api != "try") modelFuel ⟨k, v⟩ prog st0
+        let (o1, st1) := apiCallJ (api != "try") modelFuel { k := k, v := v } prog st0
         fmt (outStr o1) st1
     | _, _, _ => "ERR bad numbers"
   | _ => "ERR bad case header"
